@@ -217,19 +217,19 @@ def r4_constitution(chk, j):
     okm = am in ([f"dict(zip({atoms}, {res}.atoms))"], [f"{{{atoms}[i]: {res}.atoms[i] for i in range({res}.n_atoms)}}"], [f"{{a: b for a, b in zip({atoms}, {res}.atoms)}}"])
     chk.decide(okm, "C12.R4", f"{j.key}:atom-map", j.where(), f"{amap} maps {atoms}[i] -> {res}.atoms[i]", f"{amap} is {am}: not the positional map from source atoms to the product's copies")
     apps = [c for c in walk_no_nested(src) if isinstance(c, ast.Call) and norm(c.func) == f"{res}.append_bond"]
-    arg0 = {id(c): X(c.args[0]) for c in apps if c.args}
+    arg0 = {id(c): env.expand(c.args[0], keep=roles, at=c) for c in apps if c.args}
     apps = [c for c in apps if c.args]
     ev = [c for c in apps if isinstance(arg0[id(c)], ast.Call) and isinstance(arg0[id(c)].func, ast.Attribute) and arg0[id(c)].func.attr == "evolve"]
     fresh = [c for c in apps if c not in ev]
     ok = len(ev) == 1
     if ok:
         loop = [l for l in walk_no_nested(src) if isinstance(l, ast.For) and any(x is ev[0] for x in ast.walk(l))]
-        ok = len(loop) == 1 and f"chain({s1}.bonds, {s2}.bonds)" in norm(loop[0].iter)
+        ok = len(loop) == 1 and f"chain({s1}.bonds, {s2}.bonds)" in norm(X(loop[0].iter))
         if ok:
             b = norm(loop[0].target.elts[-1]) if isinstance(loop[0].target, ast.Tuple) else norm(loop[0].target)
             guard = [g for g in walk_no_nested(loop[0]) if isinstance(g, ast.If) and any(x is ev[0] for x in ast.walk(g))]
             ok = len(guard) == 1 and sorted(norm(c) for c in conjuncts(X(guard[0].test, [b]))) == sorted([f"{a1} not in {b}", f"{a2} not in {b}"])
-            e = env.expand(ev[0].args[0], keep=roles | {b})
+            e = env.expand(ev[0].args[0], keep=roles, at=ev[0])
             k1, k2 = kwarg(e, "a1"), kwarg(e, "a2")
             ok = ok and k1 is not None and k2 is not None and norm(k1) == f"{amap}[{b}.a1]" and norm(k2) == f"{amap}[{b}.a2]" and norm(e.func.value) == b
     chk.decide(ok, "C12.R4", f"{j.key}:bonds-transferred", j.where(ev[0] if ev else None),
